@@ -20,6 +20,9 @@ other element types / containers (R1), memory layouts and shapes (R2), with
 argument snapshots and aliasing checks (R3), around rejected calls (R4), at
 boundary values (R5), at scales 1e-12..1e12 (R6) and through one shared gain
 array used by many calls (R7); see `build_input` and the `o_*` oracles below.
+Third round: argument forms (R8: positional / keyword / defaults, `call_form`),
+heterogeneous element types inside one gain collection (R10), result and
+arguments used and overwritten after the call (R13), 257 .. 65537 channels (R14).
 """
 import json
 import math
@@ -36,7 +39,7 @@ RTOL = 1e-9
 
 CLAIM = {
     'technique': 'Lean 4 proof about an executable model + exact-rational differential correspondence',
-    'text': 'Proved in Lean (16 theorems, any vector length, arbitrary linear ordered field; optimality over R): '
+    'text': 'Proved in Lean (26 theorems, any vector length, arbitrary linear ordered field; optimality over R): '
             'for every non-empty vector of positive gains, P > 0, N > 0, Es > 0 and EVERY argsort result '
             'satisfying the sort contract (any tie order), the model of doWF returns a value; the allocation has '
             'one entry per channel, is non-negative, sums to P, equals max(0, mu - N/(Es g_i)) for the returned '
@@ -66,7 +69,25 @@ CLAIM = {
             'are vacuous (wf_function_of_values: the model is a pure function of the list of logical values, '
             'has no state, dtype or layout). complex gains are outside the domain (power gains are real) and not '
             'exercised. Findings fixed: returned level omitted Es (2825de0 = /repo 43c7aee); arithmetic done in '
-            'the dtype of the gains - integer wrap-around of Es*g, half/single precision results (3fb713c).',
+            'the dtype of the gains - integer wrap-around of Es*g, half/single precision results (3fb713c = /repo '
+            'c79364e). Second robustness round: R8 (argument forms) - THEOREM for the default values '
+            '(wf_default_args, wf_default_call_clauses: the model operation doWFCall takes optional N / Es, the '
+            'driver protocol accepts lines without N= / Es=) + correspondence/oracle for positional, keyword (any '
+            'order), mixed and four default-leaving call forms (bit-identical to the explicit positional call), '
+            'length-1 arrays where scalars are documented must be rejected or read as the scalar; doWF has no '
+            'constructor/setter paths and no wrapper inside this property (the block-diagonalisation callers '
+            'belong to C09). R10 (heterogeneous collections) - oracle/correspondence only: lists, tuples and '
+            'object arrays whose elements mix python int/float, int8..int64, uint8, float16/32/64 and 0-d arrays '
+            '(first element integer, later ones fractional) must give the float64 twin. R13 (derived objects) - '
+            'oracle only: the result pickled, shifted and fed back as gains, scribbled over; the gain array '
+            'overwritten after the call (old result unchanged, new call sees the new gains). R14 (counts) - the '
+            'theorems hold for every length (wf_equal_gains gives the closed form for n equal gains, any n); '
+            'correspondence at 257, 258, 300, 4097 channels in quick (+259, 511, 513, 1025, 16385 in thorough), '
+            '65537 channels (thorough also 65536, 100003) through the first-principles oracles only (the exact '
+            'rational model needs minutes there). Not applicable: R9 (doWF takes no index or count argument), '
+            'R11 (no object, no query methods: the only entry point is the pure function, whose '
+            'non-interference is R3/R7/R13), R12 (no dict/set/named container; the order of the channels is '
+            'covered by the permutation-equivariance clause, theorem wf_perm_equivariant). No new finding.',
 }
 
 
@@ -1271,7 +1292,9 @@ def check(ctx):
                 'compared bit-exactly, boundary cases and corpus/c12; thorough adds every vector over {1/2,1,2,3} of length <= 4 on a P/N/Es grid. Inputs are binary64 values sent to the model '
                 'as exact rationals. Robustness streams: R1 element types/containers, R2 layouts/shapes, R5 boundary '
                 'sizes and values, R6 inputs scaled by 1e-12..1e12 (all through correspondence and the standard '
-                'oracles), plus the R1-R4/R6/R7 twin, immutability, rejected-call, rescaling and shared-array oracles. '
+                'oracles), plus the R1-R4/R6/R7 twin, immutability, rejected-call, rescaling and shared-array oracles; R8 call forms '
+                '(keyword / mixed / defaults), R10 mixed-type element collections, R13 derived/overwritten arrays, R14 '
+                '257..4097 channels against the model and 65537 channels against the oracles. '
                 'non-trivial = distinct input with >= 2 channels')
     quick = ctx.tier == 'quick'
     n_rand, n_dyadic, nmax, n_big = (3000, 1000, 64, 0) if quick else (20000, 10000, 128, 600)
